@@ -60,6 +60,97 @@ proof fn lemma_dec_enc_u64s(s: Seq<u64>, tail: Seq<u8>) ensures dec_u64s(enc_u64
     }
 }
 
+// =====================================================================================================================
+// Bit-packed values (serial version 4).  Interpreted on both sides as well: lemma_unpack_pack is proved, not assumed.
+// What IS assumed (contracts of theta/bit_pack.rs below) is that the real pack/unpack functions compute packed()/unpacked();
+// those contracts are proved on the real code by the Kani harnesses kani/theta_bitpack.rs (bp_*), every width 1..=63.
+// =====================================================================================================================
+// ---- the reference bit stream (DESIGN.md Appendix A: "deltas packed MSB-first, blocks of 8 values in entryBits bytes, tail bit-packed")
+// stream bit k is bit 7 - k%8 of byte k/8; value i of width w occupies stream bits i*w .. (i+1)*w, most significant bit first
+spec fn bit_of(x: u64, p: int) -> bool { 0 <= p < 64 && (x >> (p as u64)) & 1 == 1 }
+spec fn vals_bit(v: Seq<u64>, w: int, k: int) -> bool { 0 <= k < v.len() * w && bit_of(v[k / w], w - 1 - k % w) }
+spec fn b2u(b: bool) -> u8 { if b { 1 } else { 0 } }
+spec fn byte_of_bits(b0: bool, b1: bool, b2: bool, b3: bool, b4: bool, b5: bool, b6: bool, b7: bool) -> u8 {
+    (b2u(b0) << 7) | (b2u(b1) << 6) | (b2u(b2) << 5) | (b2u(b3) << 4) | (b2u(b4) << 3) | (b2u(b5) << 2) | (b2u(b6) << 1) | b2u(b7)
+}
+spec fn packed_byte(v: Seq<u64>, w: int, b: int) -> u8 {
+    byte_of_bits(vals_bit(v, w, 8 * b), vals_bit(v, w, 8 * b + 1), vals_bit(v, w, 8 * b + 2), vals_bit(v, w, 8 * b + 3),
+                 vals_bit(v, w, 8 * b + 4), vals_bit(v, w, 8 * b + 5), vals_bit(v, w, 8 * b + 6), vals_bit(v, w, 8 * b + 7))
+}
+// n values of w bits -> ceil(n*w/8) bytes, the unused low bits of the last byte are 0
+spec fn packed_len(n: int, w: int) -> int { (n * w + 7) / 8 }
+spec fn packed(v: Seq<u64>, w: int) -> Seq<u8> { Seq::new(packed_len(v.len() as int, w) as nat, |b: int| packed_byte(v, w, b)) }
+// reading: the value made of the w stream bits from position p
+spec fn bytes_bit(b: Seq<u8>, k: int) -> bool { 0 <= k < 8 * b.len() && (b[k / 8] >> ((7 - k % 8) as u8)) & 1 == 1 }
+spec fn bytes_bit_at(b: Seq<u8>, p: int, j: int) -> bool { bytes_bit(b, p + j) }
+spec fn stream_val(b: Seq<u8>, p: int, w: int) -> u64 decreases w { if w <= 0 { 0 } else { (2 * stream_val(b, p, w - 1) + b2u(bytes_bit(b, p + w - 1))) as u64 } }
+spec fn unpacked(b: Seq<u8>, w: int, n: nat) -> Seq<u64> { Seq::new(n, |i: int| stream_val(b, i * w, w)) }
+spec fn fits(v: Seq<u64>, w: int) -> bool { forall|i: int| 0 <= i < v.len() ==> #[trigger] v[i] >> (w as u64) == 0 }
+
+proof fn lemma_byte_of_bits(b0: bool, b1: bool, b2: bool, b3: bool, b4: bool, b5: bool, b6: bool, b7: bool)
+  ensures ({ let x = byte_of_bits(b0, b1, b2, b3, b4, b5, b6, b7);
+    &&& ((x >> 7u8) & 1 == 1) == b0 &&& ((x >> 6u8) & 1 == 1) == b1 &&& ((x >> 5u8) & 1 == 1) == b2 &&& ((x >> 4u8) & 1 == 1) == b3
+    &&& ((x >> 3u8) & 1 == 1) == b4 &&& ((x >> 2u8) & 1 == 1) == b5 &&& ((x >> 1u8) & 1 == 1) == b6 &&& ((x >> 0u8) & 1 == 1) == b7 })
+{
+    let x0 = b2u(b0); let x1 = b2u(b1); let x2 = b2u(b2); let x3 = b2u(b3); let x4 = b2u(b4); let x5 = b2u(b5); let x6 = b2u(b6); let x7 = b2u(b7);
+    let x = (x0 << 7) | (x1 << 6) | (x2 << 5) | (x3 << 4) | (x4 << 3) | (x5 << 2) | (x6 << 1) | x7;
+    assert(((x >> 7u8) & 1 == x0) && ((x >> 6u8) & 1 == x1) && ((x >> 5u8) & 1 == x2) && ((x >> 4u8) & 1 == x3)
+        && ((x >> 3u8) & 1 == x4) && ((x >> 2u8) & 1 == x5) && ((x >> 1u8) & 1 == x6) && ((x >> 0u8) & 1 == x7)) by (bit_vector)
+      requires x0 <= 1, x1 <= 1, x2 <= 1, x3 <= 1, x4 <= 1, x5 <= 1, x6 <= 1, x7 <= 1,
+        x == (x0 << 7) | (x1 << 6) | (x2 << 5) | (x3 << 4) | (x4 << 3) | (x5 << 2) | (x6 << 1) | x7;
+}
+
+// a stream bit of packed(v, w) (followed by anything) is the value bit it was made from
+proof fn lemma_packed_bit(v: Seq<u64>, w: int, rest: Seq<u8>, k: int)
+  requires 0 <= k < v.len() * w, w >= 1
+  ensures bytes_bit(packed(v, w) + rest, k) == vals_bit(v, w, k)
+{
+    let b = k / 8; let t = k % 8;
+    let pk = packed(v, w);
+    assert(b < pk.len());
+    assert((pk + rest)[b] == packed_byte(v, w, b));
+    lemma_byte_of_bits(vals_bit(v, w, 8 * b), vals_bit(v, w, 8 * b + 1), vals_bit(v, w, 8 * b + 2), vals_bit(v, w, 8 * b + 3),
+                 vals_bit(v, w, 8 * b + 4), vals_bit(v, w, 8 * b + 5), vals_bit(v, w, 8 * b + 6), vals_bit(v, w, 8 * b + 7));
+    assert(k == 8 * b + t);
+}
+
+// w stream bits that spell x (MSB first) read back as x
+proof fn lemma_stream_val(b: Seq<u8>, p: int, w: int, x: u64)
+  requires 0 <= w <= 63, x >> (w as u64) == 0, forall|j: int| 0 <= j < w ==> #[trigger] bytes_bit_at(b, p, j) == bit_of(x, w - 1 - j)
+  ensures stream_val(b, p, w) == x
+  decreases w
+{
+    if w == 0 {
+        assert(x >> 0u64 == 0 ==> x == 0) by (bit_vector);
+    } else {
+        let y = x >> 1u64; let wu = w as u64;
+        assert(y >> ((wu - 1) as u64) == 0) by (bit_vector) requires y == x >> 1u64, x >> wu == 0, 1 <= wu <= 63;
+        assert forall|j: int| 0 <= j < w - 1 implies #[trigger] bytes_bit_at(b, p, j) == bit_of(y, w - 1 - 1 - j) by {
+            let q = (w - 2 - j) as u64;
+            assert(((x >> 1u64) >> q) & 1 == (x >> ((q + 1) as u64)) & 1) by (bit_vector) requires q < 62;
+        }
+        lemma_stream_val(b, p, w - 1, y);
+        assert(bytes_bit_at(b, p, w - 1) == bit_of(x, 0));
+        assert(x == 2 * (x >> 1u64) + ((x >> 0u64) & 1) && (x >> 0u64) & 1 <= 1) by (bit_vector);
+    }
+}
+
+proof fn lemma_unpack_pack(v: Seq<u64>, w: int, rest: Seq<u8>)
+  requires 1 <= w <= 63, fits(v, w)
+  ensures unpacked(packed(v, w) + rest, w, v.len()) =~= v, packed(v, w).len() == packed_len(v.len() as int, w)
+{
+    let b = packed(v, w) + rest;
+    assert forall|i: int| 0 <= i < v.len() implies #[trigger] unpacked(b, w, v.len())[i] == v[i] by {
+        assert forall|j: int| 0 <= j < w implies #[trigger] bytes_bit_at(b, i * w, j) == bit_of(v[i], w - 1 - j) by {
+            let k = i * w + j;
+            assert(0 <= k < v.len() * w) by (nonlinear_arith) requires 0 <= i < v.len(), 0 <= j < w, k == i * w + j;
+            lemma_packed_bit(v, w, rest, k);
+            vstd::arithmetic::div_mod::lemma_fundamental_div_mod_converse(k, w, i, j);
+        }
+        lemma_stream_val(b, i * w, w, v[i]);
+    }
+}
+
 // std leaves (R4 rewrites of uN::from_le_bytes / n.to_le_bytes() / n.to_be_bytes())
 #[verifier::external_body] fn vx_u16_from_le_bytes(b: [u8; 2]) -> (r: u16) ensures r == le16_val(b@) { u16::from_le_bytes(b) }
 #[verifier::external_body] fn vx_u32_from_le_bytes(b: [u8; 4]) -> (r: u32) ensures r == le32_val(b@) { u32::from_le_bytes(b) }
@@ -150,6 +241,7 @@ fn vx_unpack_block_at(entries: &mut Vec<u64>, lo: usize, hi: usize, bytes: &[u8]
     bits <= bytes@.len() < bits * BLOCK_WIDTH,
   ensures final(entries)@.len() == old(entries)@.len(),
     forall|i: int| 0 <= i < lo || hi <= i < old(entries)@.len() ==> final(entries)@[i] == old(entries)@[i],
+    final(entries)@.subrange(lo as int, hi as int) == unpacked(bytes@.take(bits as int), bits as int, 8),
 { unpack_bits_block(&mut entries[lo..hi], bytes, bits) }
 pub assume_specification [ usize::div_ceil ] (a: usize, b: usize) -> (r: usize) requires b > 0 ensures r == (a + b - 1) / (b as int);
 pub assume_specification [ u32::div_ceil ] (a: u32, b: u32) -> (r: u32) requires b > 0 ensures r == (a + b - 1) / (b as int);
@@ -162,44 +254,56 @@ const BLOCK_WIDTH : usize = 8 ;
 
 
 // real: assert_eq!(values.len(), 8); assert!((1..=63).contains(&bits)); assert!(bytes.len() < bits * 8) (sic); then pack_bits_<bits> writes bytes[0..bits]
+// ASSUMED, proved by Kani bp_pack_stream_w*: bytes[0..bits] = the reference stream of the 8 values (only their low `bits` bits are used)
 #[verifier::external_body]
 fn pack_bits_block(values: &[u64], bytes: &mut [u8], bits: u8)
   requires values@.len() == BLOCK_WIDTH, 1 <= bits <= 63, bits <= old(bytes)@.len() < bits * BLOCK_WIDTH
-  ensures final(bytes)@.len() == old(bytes)@.len()
+  ensures final(bytes)@.len() == old(bytes)@.len(), final(bytes)@.take(bits as int) == packed(values@, bits as int)
 { unimplemented!() }
 
 // real: same three asserts; unpack_bits_<bits> reads bytes[0..bits], writes values[0..8]
+// ASSUMED, proved by Kani bp_unpack_stream_w*: values = the 8 `bits`-wide values of the stream bytes[0..bits]
 #[verifier::external_body]
 fn unpack_bits_block(values: &mut [u64], bytes: &[u8], bits: u8)
   requires old(values)@.len() == BLOCK_WIDTH, 1 <= bits <= 63, bits <= bytes@.len() < bits * BLOCK_WIDTH
-  ensures final(values)@.len() == old(values)@.len()
+  ensures final(values)@.len() == old(values)@.len(), final(values)@ == unpacked(bytes@.take(bits as int), bits as int, 8)
 { unimplemented!() }
 
-#[verifier::external_body]
 struct BitPacker < 'a > {
 bytes : & 'a mut [ u8 ] , byte_index : usize , byte_bit_used : u8 , }
 
 
 
 impl<'a> BitPacker<'a> {
-    uninterp spec fn bitpos(&self) -> int;     // 8 * byte_index + byte_bit_used
-    uninterp spec fn cap(&self) -> int;        // 8 * bytes.len()
-
-    #[verifier::external_body]
-    fn new(bytes: &'a mut [u8]) -> (r: Self) ensures r.bitpos() == 0, r.cap() == 8 * old(bytes)@.len(), final(bytes)@.len() == old(bytes)@.len() {
-        unimplemented!()
+    spec fn bitpos(&self) -> int { 8 * self.byte_index + self.byte_bit_used }
+    spec fn cap(&self) -> int { 8 * (self.bytes@.len() as int) }
+    // the packer has written exactly the values `vals`, `w` bits each, from the start of its buffer (last byte zero-padded)
+    spec fn holds(&self, vals: Seq<u64>, w: int) -> bool {
+        self.byte_bit_used < 8 && self.bitpos() == vals.len() * w && packed_len(vals.len() as int, w) <= self.bytes@.len()
+          && self.bytes@.take(packed_len(vals.len() as int, w)) == packed(vals, w)
     }
 
-    #[verifier::external_body]
-    fn byte_used(&self) -> (r: usize) ensures r == (self.bitpos() + 7) / 8 {
-        unimplemented!()
-    }
+    fn new ( bytes : & 'a mut [ u8 ] ) -> ( r : Self ) ensures r . bitpos ( ) == 0 , r . byte_bit_used == 0 , r . byte_index == 0 , r . bytes @ == old ( bytes ) @ , final ( r . bytes ) @ == final ( bytes ) @ {
+BitPacker {
+bytes , byte_index : 0 , byte_bit_used : 0 , }
+}
 
-    // real: `value >> (bits - remain_bits)` / `value >> (bits - 8)` need bits <= 64; bytes[byte_index] needs the room
+    fn byte_used ( & self ) -> ( r : usize ) requires self . byte_bit_used < 8 , self . byte_index < usize :: MAX ensures r == ( self . bitpos ( ) + 7 ) / 8 {
+if self . byte_bit_used == 0 {
+self . byte_index }
+else {
+self . byte_index + 1 }
+}
+
+    // real: debug_assert!(byte_bit_used < 8); `value >> (bits - remain_bits)` / `value >> (bits - 8)` need bits <= 64; bytes[byte_index] needs the room
+    // ASSUMED, proved by Kani bp_tail_pack_stream_w*: up to 7 values of one width written from a fresh packer leave byte_index/byte_bit_used at
+    // the bit position and bytes[0..ceil(n*w/8)] == packed(values) whatever the buffer held before
     #[verifier::external_body]
     fn pack_value(&mut self, value: u64, mut bits: u8)
-      requires bits <= 64, old(self).bitpos() + bits <= old(self).cap()
-      ensures final(self).bitpos() == old(self).bitpos() + bits, final(self).cap() == old(self).cap()
+      requires bits <= 64, old(self).byte_bit_used < 8, old(self).bitpos() + bits <= old(self).cap()
+      ensures final(self).bitpos() == old(self).bitpos() + bits, final(self).cap() == old(self).cap(), final(self).byte_bit_used < 8,
+        final(final(self).bytes)@ == final(old(self).bytes)@,
+        forall|vals: Seq<u64>| #[trigger] old(self).holds(vals, bits as int) && vals.len() < 7 && 1 <= bits <= 63 ==> final(self).holds(vals.push(value), bits as int),
     {
         unimplemented!()
     }
@@ -221,10 +325,12 @@ bytes , byte_index : 0 , byte_bit_used : 0 , }
 
 
     // real: every shift is by < 8 or exactly 8 on a u64; the only panic is bytes[byte_index] out of range
+    // ASSUMED, proved by Kani bp_unpack_value_step_w*: the result is the value spelled by the next `bits` stream bits
     #[verifier::external_body]
     fn unpack_value(&mut self, mut bits: u8) -> (r: u64)
       requires old(self).byte_bit_used < 8, old(self).bitpos() + bits <= 8 * old(self).bytes@.len()
-      ensures final(self).bitpos() == old(self).bitpos() + bits, final(self).byte_bit_used < 8, final(self).bytes == old(self).bytes
+      ensures final(self).bitpos() == old(self).bitpos() + bits, final(self).byte_bit_used < 8, final(self).bytes == old(self).bytes,
+        1 <= bits <= 63 ==> r == stream_val(old(self).bytes@, old(self).bitpos(), bits as int),
     {
         unimplemented!()
     }
